@@ -377,6 +377,7 @@ REC_RE = [
     ("unknown-args", re.compile(r"^Unrecognized arguments: '(.*)'$", re.S)),
     ("empty-db", re.compile(r"^No files found in compilation database at '(.*)'\.\nEnsure that 'directory' and 'file' are in the root directory\.$", re.S)),
     ("unknown-directive", re.compile(r"^(.*):(\d+):(\d+): unrecognized directive '(\[.*\])'$", re.S)),
+    ("missing-forced", re.compile(r"^(.*): forced include '(.*)' not found$", re.S)),
     ("missing-include", re.compile(r"^(.*):(\d+): (user|system) include '(.*)' not found\n *(\d+) \| (.*)$", re.S)),
 ]
 
@@ -401,6 +402,8 @@ def event_of(msg):
             if m.group(2) != m.group(5):
                 return ["other", msg]
             return [kind, m.group(1), int(m.group(2)), m.group(4), 1 if m.group(3) == "system" else 0]
+        if kind == "missing-forced":
+            return [kind, m.group(1), m.group(2)]
         return [kind, m.group(1)]
     return ["other", msg]
 
@@ -669,13 +672,7 @@ class C18(Check):
                 missing.append(e)
         used = []
         dropped = 0
-        # (1) forced includes that do not exist are not reported
-        forced = [e for e in missing if e[0] == "missing-forced"]
-        if forced:
-            used.append("forced-include-dropped")
-            dropped += len(forced)
-            missing = [e for e in missing if e[0] != "missing-forced"]
-        # (2) '-fsycl' given to clang/clang++ is taken for '-fsycl-is-device'
+        # (1) '-fsycl' given to clang/clang++ is taken for '-fsycl-is-device'
         abbr = any(cc in ("clang", "clang++") and ["R", "-fsycl"] in args for _, es in case[1] for _, cc, args in es)
         if abbr:
             for e in [e for e in missing if e[0] == "unknown-args" and "-fsycl" in e[1]]:
@@ -693,7 +690,7 @@ class C18(Check):
             return None
         if iv[2][0] != sa[2][0] - dropped:
             return None
-        # (3) the per-category totals are substring tests on the whole message
+        # (2) the per-category totals are substring tests on the whole message
         if iv[2][1:] != sa[2][1:]:
             # explained only by messages that contain a category's phrase without being of that category
             def cat(m):   # noqa
